@@ -24,6 +24,12 @@ CHECKS = {
  "C03": ("Obligations over the decode-reachable call graph (118 roots, 130 module functions via VTA): every panic-capable SSA site (384 today: index, slice, make, divide, type assertion, explicit panic, binary.UintN/PutUintN length preconditions) is discharged by a purpose-built sound linear-inequality prover (dominating branch conditions incl. &&/|| lowering, len/append/make/slice definitions, store-to-load forwarding for non-escaping locations, strings.Index/bytes.IndexByte contracts, monotone-phi, invariant-sum and length-difference loop lemmas, goal splitting over merge edges); every natural loop in scope must match a termination template (ranking function proved at each back edge, iterator loop, or reader-progress loop); every allocation size must be constant, a linear form over lengths of existing data, a <=16-bit wire value, or provably bounded by the remaining input (followed into callers); every decoder return after the first read yields the reader's sticky error, and the reader's own paths test every library error/short count (imported from the C20 analysis). Undischarged = reported. This is a static over-approximation of 'never panics / hangs / over-allocates', hence level 'other' (sound w.r.t. the enumerated site kinds, incomplete).",
          "Trusted: Go run-time panic conditions for the enumerated site kinds; contracts of strings.Index/bytes.IndexByte/append/make; code inside dependencies (x/text, fmt.Sscanf, bytes.Buffer) is not analysed; nil dereference and nil-map writes are not enumerated (no decode path builds pointers or maps from input other than via make). Known findings: the blocking extractors allocate the announced 32-bit frame length.",
          "call-graph scoped obligation enumeration on SSA + purpose-built linear-inequality prover + loop-termination templates + allocation-size dataflow", "DESIGN.md section 2 C03"),
+ "C16": ("Structural rules over both optional-parameter containers: the serialised buffer size equals the emitted 16-bit length field + 4 as linear forms and no operator of the size expression can wrap in its static type; all index/slice/PutUint16 sites discharged by the prover; in each reader-style parser the single map store is dominated by `Error() != nil`-false checks after the header read and after the value read (no fabricated entry), loops make progress; the three reader-style parsers have identical normalised summaries and the slice-style parser has the same layout attributes (tag@+0, length@+2, big-endian, value = next `length` octets, keyed by tag); serialisers range exactly once over the receiver map appending entry.Bytes(); Len adds 4+len(value); mutating methods do not assign to a value receiver; accessors index under a guard.",
+         "Trusted: C20 contract of Reader.ReadBytes; binary.BigEndian. Not decided: set equality on concrete inputs (not executed). Known finding: smgp.Options.Add on a nil map (value receiver).",
+         "SSA dominance / linear-form rules + normalised-summary comparison of sibling parsers", "DESIGN.md section 2 C16"),
+ "C18": ("Structural rules over the three finder functions and two extractors: value start = strings.Index(s,K)+len(K) with the same K (ending in ':') on every incoming edge (paired phis), value end = first space of s[start:] or end of text, all slices discharged by the prover, no reachable truncation in the SMPP variant and exactly value[:width] in the SMGP variant; the SMGP id is hex of s[start:start+10] under exactly the guard len(s) >= start+10; both extractors are straight-line and use exactly the table of the eight keys, SMGP backup spellings and SMGP widths; the CMPP status-report body passes the mirror rule and the layout comparison with the specification. Quantification over receipts (any order, any subset, any values without key tokens) is discharged because each key is located independently by substring search and no statement depends on another key's result.",
+         "Trusted: strings.Index contract, hex.EncodeToString; the key table from SMPP 3.4 appendix B / SMGP 3.0.3. Not decided: values that themselves contain key tokens (excluded by the property).",
+         "SSA pattern rules with paired-phi agreement + prover-discharged slice bounds + AST table extraction", "DESIGN.md section 2 C18"),
 }
 
 def main():
